@@ -29,6 +29,10 @@
  *   seed=<n>            RNG seed (default 1).  xorshift64*; feeds query ids, DNS cookies,
  *                       0x20 case randomisation, skip-list levels, server retry chance.
  *   idseq=<n>           query ids are n, n+1, ... instead of random
+ *   idlist=<a,b,c,..>   query ids handed out first (at most 64; ares_generate_new_id returns them
+ *                       in this order, repeats allowed - forces collisions in generate_unique_qid);
+ *                       afterwards idseq/random continues
+ *   qdump=1             log QSTATE (internal query / connection / cookie state, see EVENTS)
  *   clock=<ms>          start value of the virtual clock (default 1000000)
  *   servers=<n>         n IPv4 servers 10.0.0.1 .. (default 1; via ARES_OPT_SERVERS)
  *   servers6=<n>        n IPv6 servers fd00::1 ..  (appended after the IPv4 ones; the list
@@ -128,8 +132,10 @@
  *        flipcase=1 (invert the case of every letter of the question name) | 2 (first letter)
  *        noq=1 (no question)   an=<rrs> ns=<rrs> ar=<rrs>   ttlall=<n>
  *        noopt=1 (no OPT although the query had one)  udpsize=<n> ednsver=<n>
- *        cookie=echo | echo:<server cookie hex> | bad | none | <raw option hex>
+ *        cookie=echo | echo:<server cookie hex> | bad | bad<k> | none | <raw option hex>
  *               (echo: client cookie of the query + server cookie 53494d5352563031)
+ *               (bad: first byte of the client cookie inverted; bad<k>, k=0..7: one bit of
+ *                byte k flipped; both followed by the server cookie)
  *        from=<addr[:port]> (UDP source address; default the socket's peer)
  *        on=s<k> (deliver on another socket)  dup=<n> (n copies)  trunc=<n> (cut to n bytes)
  *      <rrs> = RR+RR+..., RR = TYPE:rdata[:ttl][@owner]   (ttl default 300, owner default
@@ -232,6 +238,15 @@
  *   SOCKSTATE s<k> r=<0|1> w=<0|1> [closed=1]     sock_state_cb
  *   PENDINGWRITE                                    pending write callback
  *   SERVERSTATE <server string> success=<0|1> flags=<n>    server state callback
+ *   QSTATE q=[<id>/<t<T>|->/<s<k>|->/<tcp>/<try>/<cookietry>/<timeouts>/<noretry>,..]
+ *          srv=[<i>/<consec_failures>/<cookie state>/<client hex>/<server hex|->/<unsup sec.usec>,..]
+ *          conns=[s<k>/<srv i>/<tcp>/<queries on it>,..]            only with qdump=1
+ *        channel->all_queries (id, token if the callback argument is one of ours, socket the
+ *        query is assigned to, using_tcp, try_count, cookie_try_count, timeouts, no_retries), the
+ *        per-server cookie record (servers in configuration order) and the open connections.
+ *        Evaluated after every top level op and at every arecvfrom call (i.e. before a read
+ *        batch); printed only when the text differs from the last QSTATE printed - an absent
+ *        line means "unchanged".
  *   ALLOCFAIL at=<n>                     the n-th counted allocation returned NULL
  *   ENDSTATE open_sockets=[..] pending_tokens=[tokens with fewer callbacks than requests]
  *            cb_dups=<n> sockets=<created> tx=<transmitted>
